@@ -130,7 +130,7 @@ func (vc *VC) shapeQuant(vars [][2]string, parts []*Term) ([][2]string, []*Term,
 				return
 			}
 			ix := t.Args[1]
-			if len(ix.Args) == 0 && ix.Op == jsym && !termMentions(t.Args[0], jsym) {
+			if len(ix.Args) == 0 && ix.Op == jsym && !termMentions(t.Args[0], jsym) && !termCalls(t.Args[0], "ite") {
 				for _, q := range pats {
 					if termEqual(q, t) {
 						return
